@@ -48,16 +48,20 @@ Definition rels_of (l : lat_d) : rels_d := snd l.
 Inductive c06_case :=
 | CTrans (b : backend) (strs : list str) (k : ctx_d)
          (out : ires (ctx_d * ctx_d * ires bool))                       (* K.T, K.T.T, K.T.T == K *)
-| CPrimes (b : backend) (t : table) (basesA basesO : list (list nat))
+| CPrimes (b : backend) (t : table) (basesA basesO repsO repsA : list (list nat))
           (out : ires (list (list nat) * list (list nat) * list (list nat) * list (list nat)
                        * (list (list nat) * list (list nat))
+                       * (list (list nat) * list (list nat) * list (list nat) * list (list nat))
                        * (list (list (list nat)) * list (list (list nat))
                           * list (list (list nat)) * list (list (list nat)))))
             (* K.T.extension_i(X), K.T.intention_i(Y), K.intention_i(X), K.extension_i(Y)
                for X in sublists (objects of K), Y in sublists (attributes of K);
                the same two K.T operators by NAME (answers mapped back to indexes by the harness);
                and per base set B of basesA (attributes of K) / basesO (objects of K):
-               K.T.extension_i(X, B), K.intention_i(X, B), K.T.intention_i(Y, B), K.extension_i(Y, B) *)
+               K.T.extension_i(X, B), K.intention_i(X, B), K.T.intention_i(Y, B), K.extension_i(Y, B);
+               (third component) listings WITH repeated entries, repsO over objects / repsA over
+               attributes, some padded to exactly n_objects / n_attributes entries:
+               K.T.extension_i(Xr), K.intention_i(Xr), K.T.intention_i(Yr), K.extension_i(Yr) *)
 | CLatT (b : backend) (strs : list str) (k : ctx_d)
         (out : ires (lat_d * lat_d * lat_d))                             (* L = lattice(K), L.T, lattice(K.T) *)
 | CCompl (b : backend) (strs : list str) (k : ctx_d)
@@ -186,16 +190,20 @@ Definition lists_eqb := list_eqb nat_list_eqb.
 
 Definition lists3_eqb := list_eqb lists_eqb.
 
-Definition check_primes b t (basesA basesO : list (list nat)) out : nat :=
+Definition check_primes b t (basesA basesO repsO repsA : list (list nat)) out : nat :=
   let h := height t in let w := width t in
   let tt := transpose b t in
   match out with
-  | IOk (eT, iT, iK, eK, (eTn, iTn), (eTb, iKb, iTb, eKb)) =>
+  | IOk (eT, iT, iK, eK, (eTn, iTn), (eTr, iKr, iTr, eKr), (eTb, iKb, iTb, eKb)) =>
       let same :=
         lists_eqb eT (map (fun X => extension_i b tt X None) (subs h)) &&
         lists_eqb iT (map (fun Y => intention_i b tt Y None) (subs w)) &&
         lists_eqb iK (map (fun X => intention_i b t X None) (subs h)) &&
         lists_eqb eK (map (fun Y => extension_i b t Y None) (subs w)) &&
+        lists_eqb eTr (map (fun X => extension_i b tt X None) repsO) &&
+        lists_eqb iKr (map (fun X => intention_i b t X None) repsO) &&
+        lists_eqb iTr (map (fun Y => intention_i b tt Y None) repsA) &&
+        lists_eqb eKr (map (fun Y => extension_i b t Y None) repsA) &&
         lists3_eqb eTb (map (fun B => map (fun X => extension_i b tt X (Some B)) (subs h)) basesA) &&
         lists3_eqb iKb (map (fun B => map (fun X => intention_i b t X (Some B)) (subs h)) basesA) &&
         lists3_eqb iTb (map (fun B => map (fun Y => intention_i b tt Y (Some B)) (subs w)) basesO) &&
@@ -205,6 +213,9 @@ Definition check_primes b t (basesA basesO : list (list nat)) out : nat :=
         lists_eqb eT iK && lists_eqb iT eK &&
         (* by name *)
         lists_eqb eTn (map (int t) (subs h)) && lists_eqb iTn (map (ext t) (subs w)) &&
+        (* a listing with repeated entries denotes the same set *)
+        lists_eqb eTr (map (int t) repsO) && lists_eqb iKr (map (int t) repsO) &&
+        lists_eqb iTr (map (ext t) repsA) && lists_eqb eKr (map (ext t) repsA) &&
         (* restricted to a base set: the filter of the base, in the order of the base *)
         lists3_eqb eTb (map (fun B => map (fun X => int_spec t X B) (subs h)) basesA) &&
         lists3_eqb iTb (map (fun B => map (fun Y => ext_spec t Y B) (subs w)) basesO) &&
@@ -331,7 +342,7 @@ Definition check_mono (b : backend) strs k h out : nat :=
 Definition c06_check (c : c06_case) : nat :=
   match c with
   | CTrans b strs k out => check_trans b strs k out
-  | CPrimes b t bA bO out => check_primes b t bA bO out
+  | CPrimes b t bA bO rO rA out => check_primes b t bA bO rO rA out
   | CLatT b strs k out => check_latT b strs k out
   | CCompl b strs k out => check_compl b strs k out
   | CRelabel b strs k ps pc on' an' out => check_relabel b strs k ps pc on' an' out
@@ -348,7 +359,7 @@ Inductive c06_shown :=
 Definition c06_show (c : c06_case) : c06_shown :=
   match c with
   | CTrans b strs k _ => STrans (trans_model b (dec_ctx strs k))
-  | CPrimes b t _ _ _ => SPrimes (map (int t) (subs (height t))) (map (ext t) (subs (width t)))
+  | CPrimes b t _ _ _ _ _ => SPrimes (map (int t) (subs (height t))) (map (ext t) (subs (width t)))
   | CLatT b strs k out =>
       SLat (match out with IOk (l, _, _) => Some (lattice_T (dec_lat strs l)) | _ => None end)
            (map swap_pair (concepts_spec (fst (fst k))))
